@@ -58,8 +58,7 @@ TABLE_CLS = None
 
 def _select_only(r):
     """only a SELECT is embedded as a subquery (an upsert's alias, for one, is MySQL's row alias: another meaning)"""
-    d = r.__dict__
-    if d.get("_insert_table") or d.get("_update_table") or d.get("_delete_from") or not d.get("_selects"):
+    if not str(r).lstrip("(").upper().startswith(("SELECT", "WITH")):
         raise ValueError("not a SELECT")
     return r
 
